@@ -25,6 +25,11 @@ def cells(tier):
         sc = scen([pool(size, "SimpleTaskPool", ecb="coro", ccb="plain"), pool(1)], [[S("S", 2)], [A("B", 2, p=1)], [["stop", 1], S("T", 1)]],
                   outcomes=["ret"], ecb="plain")
         out.append(cell(f"simple+task s{size}/1 S2|B2@1|stop1,T1", sc, MON))
+    for size in [1, 2]:
+        sc = scen(pool(size), [[A("A", 3)], [cgroup("A"), A("B", 2)], [M("M", 2, 1)]], outcomes=["ret"], ecb="plain", ccb="plain")
+        out.append(cell(f"s{size} A3|cgroupA,B2|M2/1", sc, MON))
+        sc = scen(pool(size), [[M("M", 3, 2)], [A("A", 2)], [CALL, A("B", 2)]], outcomes=["ret"])
+        out.append(cell(f"s{size} M3/2|A2|call,B2", sc, MON))
     if not q:
         for size in [1, 2, "inf"]:
             sc = scen([pool(size), pool(size)], [[A("A", 2)], [M("M", 3, 2, p=1)], [cancel(rid("A", 1))], [FLUSH, A("C", 1)], [["flush", {"p": 1}]]],
